@@ -339,6 +339,16 @@ DoReply(r, c, s, kind, tok, node) ==
                    ELSE "reply not prescribed by the retry policy", r)
     /\ UNCHANGED <<conn, out>>
 
+(* The backend received, on connection b, a frame from the proxy that it cannot decode (with the settings of that       *)
+(* connection).  r is the request the proxy registered for that backend stream, if the hooks know it (a re-PREPARE).     *)
+DoBadFrame(r, prep) ==
+    /\ bad' = Flag(FALSE, IF prep THEN "C08" ELSE "C03",
+                   IF prep THEN "the re-PREPARE sent for the request cannot be decoded by the backend (not the client's statement for this connection)"
+                   ELSE "the proxy sent the backend a frame that the backend cannot decode", r)
+    \* the backend answers with a protocol error: a failed re-prepare moves on
+    /\ rq' = IF r \in DOMAIN rq THEN [rq EXCEPT ![r].must = @ \cup {"next"}] ELSE rq
+    /\ UNCHANGED <<conn, out>>
+
 DoClientClose(c) ==
     /\ rq' = [r \in DOMAIN rq |-> IF rq[r].c = c THEN [rq[r] EXCEPT !.closed = TRUE] ELSE rq[r]]
     /\ UNCHANGED <<conn, out, bad>>
